@@ -34,7 +34,7 @@ CHAIN = "MC_Chain.tla"
 NPM = "MC_Npm.tla"
 FIN = "MC_Fin.tla"
 IMP = "MC_Imports.tla"
-QUICK = [(CORE, "core_q"), (CORE, "policy_q"), (CORE, "forms_q"), (CORE, "redir_q"), (CORE, "roots_q"), (CORE, "tdep_q"), (CORE, "optdyn_q"), (CORE, "optskip_q"), (CHAIN, "chain_q"), (NPM, "npm_q"), (FIN, "fin_q"), (IMP, "imports_q")]
+QUICK = [(CORE, "core_q"), (CORE, "policy_q"), (CORE, "forms_q"), (CORE, "redir_q"), (CORE, "roots_q"), (CORE, "tdep_q"), (CORE, "optdyn_q"), (CORE, "optskip_q"), (CORE, "optboth_q"), (CHAIN, "chain_q"), (NPM, "npm_q"), (FIN, "fin_q"), (IMP, "imports_q")]
 THOROUGH = QUICK + [(FIN, "fin_t"), (CORE, "core_t"), (CORE, "redir_t"), (CORE, "roots_t"), (CHAIN, "chain_t"), (NPM, "npm_t")]
 def _q(*names):
     return [(CHAIN if n.startswith("chain") else NPM if n.startswith("npm") else FIN if n.startswith("fin") else IMP if n.startswith("imports") else CORE, n) for n in names]
